@@ -343,3 +343,42 @@ Definition get_simple_query (p : packet) : res bytes :=
   if (len (p_desc p) <? 1)%Z then Err E_TRUNCATED else gslice_to (len (p_desc p) - 1)%Z (p_desc p).
 (** the code as found *)
 Definition get_simple_query_old (p : packet) : res bytes := gslice_to (len (p_desc p) - 1)%Z (p_desc p).
+
+(** ---------- several messages through ONE handler object ----------
+    The handler keeps its packet buffer between messages (Reset() empties it, the capacity and the old
+    bytes stay).  The specification is that this history does not show: every message is read, rewritten
+    and marshalled as if the handler were new.  [rw] is what the proxy does to one message:
+    nothing, ReplaceQuery (Query and Parse messages; every other type is left alone), GetBindData +
+    parameter values replaced + ReplaceBind, or the DataRow path (parseColumns, SetData, updateDataFromColumns). *)
+Inductive rw :=
+| RwKeep
+| RwQuery (q : bytes)
+| RwBind (tr : list (option bytes))
+| RwRow (fmts : list N) (tr : list (option bytes)).
+
+(** PacketHandler.ReplaceQuery: the Query branch, the Parse branch, no-op otherwise *)
+Definition replace_any_query (p : packet) (q : bytes) : res packet :=
+  if byte_eqb (p_type p) PG_QUERY_TYPE then Ok (replace_query p q)
+  else if byte_eqb (p_type p) PG_PARSE_TYPE then replace_parse_query p q
+  else Ok p.
+
+Definition apply_rw (r : rw) (p : packet) : res packet :=
+  match r with
+  | RwKeep => Ok p
+  | RwQuery q => replace_any_query p q
+  | RwBind tr =>
+      do b <- new_bind_packet (p_desc p);
+      replace_bind p (mk_bind (b_portal b) (b_stmt b) (b_pfmts b) (set_params (b_params b) tr) (b_rfmts b))
+  | RwRow fmts tr => process_datarow fmts (tr_of_list tr) p
+  end.
+
+(** read / rewrite / send, one message per element of [rws]; the first failure ends the session *)
+Fixpoint session (rws : list rw) (s : bytes) : res (list bytes) :=
+  match rws with
+  | [] => Ok []
+  | r :: rest =>
+      do (p, s') <- read_msg s;
+      do p' <- apply_rw r p;
+      do outs <- session rest s';
+      Ok (marshal p' :: outs)
+  end.
